@@ -71,7 +71,7 @@ CNAMES = ['sha0_compress', 'sha1_compress', 'sha2_compress32', 'sha2_compress64'
 def install_update_contract(c, h, alg):
     """the loop body of update() (one compression) is used through its contract  H' = compress(H, W),
     which is the obligation update/one-block=compress"""
-    from pyvc.sym import EngineError
+    from pyvc.errors import EngineError
     comp = S.compress_of(alg); w = h.wsize
     qual = type(h).update.__module__ + '.' + type(h).update.__qualname__
     def handler(I, env):
